@@ -17,7 +17,7 @@ import (
 )
 
 func TestVerifC11Send(t *testing.T) {
-	vRun(t, "C11.send", vCount(150, 4000), func(c *vCase) {
+	vRun(t, "C11.send", vCount(150, 15000), func(c *vCase) {
 		c.Bubble(func() {
 			n := newVNet(c)
 			defer n.Close()
